@@ -30,6 +30,39 @@ def _mods():
     return inst_decoding, InstanceSpace, Errors, Hardness, ErrorsAndHardness
 
 
+class DecodeTimeout(Exception):
+    pass
+
+
+def _alarm(_s, _f):
+    raise DecodeTimeout
+
+
+# wall-clock guard around every decode call (a decode takes milliseconds): generous until a first call has run into
+# it, short afterwards - the run is a violation by then, and a change that makes a class of vectors loop for ever
+# must cost minutes, not hours
+_GUARD = {"timeouts": 0}
+
+
+def guarded_decode(dec, xa, y) -> None:
+    import signal
+    old = signal.signal(signal.SIGALRM, _alarm)
+    signal.alarm(300 if _GUARD["timeouts"] == 0 else (30 if _GUARD["timeouts"] < 3 else 5))
+    try:
+        dec.decode(xa, y)
+    except DecodeTimeout:
+        _GUARD["timeouts"] += 1
+        raise
+    finally:
+        signal.alarm(0)
+        signal.signal(signal.SIGALRM, old)
+
+
+def _same_inst(a, b) -> bool:
+    return (a.name == b.name and a.bin_width == b.bin_width and a.bin_height == b.bin_height and a.shape == b.shape
+            and bool(np.array_equal(np.asarray(a), np.asarray(b))))
+
+
 def decode_case(cid: str, tmpl, x: list, with_objs: bool, rng: random.Random) -> dict:
     idm, Space, Errors, Hardness, EH = _mods()
     if idm._VERIF_EVENTS is None:
@@ -39,14 +72,25 @@ def decode_case(cid: str, tmpl, x: list, with_objs: bool, rng: random.Random) ->
     xa = np.array(x, dtype=np.float64)
     idm._VERIF_EVENTS.clear()
     y: list = []
-    dec.decode(xa, y)
+    guarded_decode(dec, xa, y)
     events = [{"ph": e[0], "i": small(e[1]), "dim": e[2], "pos": small(e[3])} for e in idm._VERIF_EVENTS]
     inst = y[0]
     y2: list = [inst]
-    dec.decode(xa, y2)
+    guarded_decode(dec, xa, y2)
     inst2 = y2[0]
-    same = (inst.name == inst2.name and inst.bin_width == inst2.bin_width and inst.shape == inst2.shape
-            and bool(np.array_equal(np.asarray(inst), np.asarray(inst2))))
+    same = _same_inst(inst, inst2)
+    # a receiver is used again and again by an optimisation process: decode ANOTHER vector into the receiver that
+    # holds this instance; what it delivers must be the instance of that other vector (= its fresh decoding)
+    xo = np.array([rng.uniform(-1, 1) for _ in range(len(x))], dtype=np.float64)
+    fresh: list = []
+    guarded_decode(dec, xo, fresh)
+    reused: list = [inst]
+    guarded_decode(dec, xo, reused)
+    reuse_ok = len(reused) >= 1 and _same_inst(reused[0], fresh[0])
+    reused2: list = []
+    guarded_decode(dec, xa, reused2)
+    guarded_decode(dec, xo, reused2)      # ... and a receiver that started empty
+    reuse_ok = reuse_ok and _same_inst(reused2[0], fresh[0])
     rec = {"id": cid,
            # the template's own data (not what the space derived from it)
            "t": {"W": small(tmpl.bin_width), "H": small(tmpl.bin_height),
@@ -59,7 +103,7 @@ def decode_case(cid: str, tmpl, x: list, with_objs: bool, rng: random.Random) ->
                    "lb": small(inst.lower_bound_bins),
                    "items": [[small(inst[i, 0]), small(inst[i, 1]), small(inst[i, 2])]
                              for i in range(inst.n_different_items)]},
-           "again": 1 if same else 0, "objs": []}
+           "again": 1 if same else 0, "reuse": 1 if reuse_ok else 0, "objs": []}
     if with_objs:
         e = Errors(space)
         v = float(e.evaluate(y))
@@ -72,7 +116,7 @@ def decode_case(cid: str, tmpl, x: list, with_objs: bool, rng: random.Random) ->
         # candidate of a template carries the same name), then this one again: must equal a fresh object's value
         x2 = [rng.uniform(-1, 1) for _ in range(len(x))]
         yb: list = []
-        dec.decode(np.array(x2, dtype=np.float64), yb)
+        guarded_decode(dec, np.array(x2, dtype=np.float64), yb)
         hh = Hardness(max_fes=24, n_runs=2)
         hh.evaluate(y)
         vb = float(hh.evaluate(yb))
@@ -145,6 +189,11 @@ def run(prop: str, tier: str, seed: int) -> int:
         except (IndexError, ZeroDivisionError) as ex:
             rep.violations.append(core.Verdict(f"dec-{k}", f"decoder-raises:{type(ex).__name__}",
                                                {"template": tmpl.to_compact_str(), "x": x, "error": str(ex)[:100]}))
+            continue
+        except DecodeTimeout:
+            rep.violations.append(core.Verdict(f"dec-{k}", "decode-does-not-terminate",
+                                               {"template": tmpl.to_compact_str(), "x": x,
+                                                "guard": "300 s (30 s / 5 s after earlier timeouts)"}))
             continue
         nt = 1 if cases[-1]["events"] and any(e["ph"] == 2 for e in cases[-1]["events"]) else 0
         rep.family("decoded-vectors", 1, nt)
